@@ -11,6 +11,7 @@ declare -A PROPS=(
 V=$(git log --format='%h %s' | grep "search from a vertex that is not in the graph" | cut -d' ' -f1)
 PROPS[$V]="C12"
 LIST="${@:-${!PROPS[@]}}"
+rm -rf /verif/.work/evidence.keep && cp -r /verif/evidence /verif/.work/evidence.keep
 for c in $LIST; do
   git checkout -q -- . 2>/dev/null
   if ! git show $c | git apply -R 2>/dev/null; then echo "$c: reverse patch does not apply cleanly"; continue; fi
@@ -22,4 +23,5 @@ for c in $LIST; do
   done
   git checkout -q -- .
 done
+rm -rf /verif/evidence && mv /verif/.work/evidence.keep /verif/evidence
 git status --short | head
